@@ -11,8 +11,10 @@
    of i, tmp[k] is the root (height k) of the 2^k leaves that start at [st k i] = i with its
    k+1 low bits cleared.  [B j a n] is the virtual-padding root of height j of the n leaves
    a, a+1, …, a+n-1. *)
+From Ztyp Require Import BitfieldsProofs.
 From Ztyp Require Import Base Bitlen Bitfields Merkleize Types Spec BitlenProofs MerkleProofs.
 From Coq Require Import PeanoNat ZArith ZifyN ZifyNat ZifyBool.
+Notation lenN := Spec.lenN.
 Open Scope N_scope.
 
 Local Opaque two64.
@@ -247,16 +249,16 @@ Proof.
       intros k Hk.
       assert (Hdiv : (i + 1) / 2 ^ (j + 1) = i / 2 ^ (j + 1)).
       { apply div_succ_same; [apply pow2_nz|]. pose proof (pow2_pos j). lia. }
+      assert (Hsteq : st j (i + 1) = st j i) by (unfold st; rewrite Hdiv; reflexivity).
+      pose proof (st_split (i + 1) j) as Hst'.
       destruct (N.lt_trichotomy k j) as [Hlt|[->|Hgt]].
       * (* below j: bit k of i+1 is clear *)
         exfalso.
-        assert (Hm : (i + 1) mod 2 ^ (j + 1) = 2 ^ j).
-        { pose proof (N.div_mod (i + 1) (2 ^ (j + 1)) (pow2_nz _)) as Hd.
-          rewrite Hdiv in Hd. unfold st in Hst. lia. }
+        assert (Hm : (i + 1) mod 2 ^ (j + 1) = 2 ^ j) by lia.
         rewrite <- (N.mod_pow2_bits_low (i + 1) (j + 1) k) in Hk by lia.
         rewrite Hm, N.pow2_bits_false in Hk by lia. discriminate.
       * rewrite nth_list_set_eq by (rewrite Hlen; unfold nat_of; lia).
-        rewrite Hh. f_equal. unfold st in *. rewrite Hdiv. lia.
+        rewrite Hh. f_equal. lia.
       * rewrite nth_list_set_neq by (unfold nat_of; lia).
         destruct (high_same (i + 1) i (j + 1) k Hdiv) as [Hb Hd]; [lia|].
         rewrite Hb in Hk. rewrite (HInv k Hk). unfold st. rewrite Hd. reflexivity.
@@ -300,5 +302,360 @@ Proof.
 Qed.
 
 End Merge.
+Lemma Inv_0 tmp : Inv 0 tmp.
+Proof. intros k Hk. rewrite N.bits_0 in Hk. discriminate. Qed.
+
+Lemma leaves_loop_ok count depth ld : count <= 2 ^ ld -> count < 2 ^ 64 ->
+  forall k i tmp, i + N.of_nat k = count -> length tmp = S (nat_of ld) -> Inv i tmp ->
+  exists tmp', leaves_loop H zh k i count depth leaf tmp = OK tmp' /\
+               length tmp' = S (nat_of ld) /\ Inv count tmp'.
+Proof.
+  intros Hcl Hc64. induction k as [|k IH]; intros i tmp Hik Hlen HInv.
+  - exists tmp. replace count with i by lia. cbn [leaves_loop]. auto.
+  - cbn [leaves_loop]. unfold merge.
+    destruct (merge_leaf count depth ld tmp Hlen i) with (fuel := 66%nat) (j := 0) (h := leaf i)
+      as (tmp1 & Hm & Hl1 & HInv1); try assumption; try lia.
+    + rewrite N.mod_1_r. reflexivity.
+    + rewrite N.pow_0_r. replace (i + 1 - 1) with i by lia. symmetry. apply B_0_1.
+    + rewrite Hm. cbn [bind]. apply IH; [lia|congruence|exact HInv1].
+Qed.
+
+Lemma climb_ok ld (L : list chunk) : forall k j tmp, j + N.of_nat k = ld ->
+  length tmp = S (nat_of ld) -> lenN L <= 2 ^ j ->
+  nth (nat_of j) tmp zero_chunk = mv (nat_of j) L ->
+  exists tmp', climb H zh k j tmp = OK tmp' /\
+               nth (nat_of ld) tmp' zero_chunk = mv (nat_of ld) L /\
+               length tmp' = S (nat_of ld).
+Proof.
+  induction k as [|k IH]; intros j tmp Hjk Hlen HL Hn.
+  - exists tmp. replace ld with j by lia. cbn [climb]. auto.
+  - cbn [climb].
+    rewrite tmp_get_ok by (rewrite Hlen; unfold nat_of; lia). cbn [bind].
+    rewrite tmp_set_ok by (rewrite Hlen; unfold nat_of; lia). cbn [bind].
+    apply IH.
+    + lia.
+    + rewrite list_set_len. exact Hlen.
+    + pose proof (pow2_succ j). lia.
+    + rewrite nth_list_set_eq by (rewrite Hlen; unfold nat_of; lia).
+      rewrite Hn, nat_of_succ. symmetry. apply mv_pad.
+      unfold nat_of. rewrite N2Nat.id. exact HL.
+Qed.
+
 End Loop.
+
+(* the leaves 0 .. count-1 as a list *)
+Definition leaves (leaf : N -> chunk) (count : N) : list chunk :=
+  map leaf (map N.of_nat (seq 0 (N.to_nat count))).
+
+Lemma log2_up_le64 v : v < 2 ^ 64 -> N.log2_up v <= 64.
+Proof.
+  intros Hv. destruct (N.eq_dec v 0) as [->|Hnz]; [discriminate|].
+  apply N.log2_up_le_pow2; lia.
+Qed.
+
+Lemma le_pow2_log2_up v : v <= 2 ^ N.log2_up v.
+Proof.
+  destruct (N.le_gt_cases v 1) as [Hle|Hgt].
+  - rewrite N.log2_up_eqn0 by exact Hle. rewrite N.pow_0_r. exact Hle.
+  - apply N.log2_up_spec. exact Hgt.
+Qed.
+
+Theorem merkleize_correct count limit leaf : count <= limit -> limit < 2 ^ 64 ->
+  merkleize H zh count limit leaf = OK (merkleize_spec H (leaves leaf count) limit).
+Proof.
+  intros Hcl Hl64. unfold merkleize, merkleize_spec.
+  replace (limit <? count) with false by (symmetry; apply N.ltb_ge; exact Hcl).
+  change (leaves leaf count) with (rng leaf 0 count).
+  destruct (N.eqb_spec limit 0) as [->|Hl0].
+  { assert (count = 0) as -> by lia. reflexivity. }
+  destruct (N.eqb_spec limit 1) as [->|Hl1].
+  { destruct (N.eqb_spec count 1) as [->|Hc1].
+    - change (depth_for 1) with 0%nat. rewrite rng_1. reflexivity.
+    - assert (count = 0) as -> by lia. reflexivity. }
+  assert (Hc64 : count < 2 ^ 64) by lia.
+  rewrite (depth_for_cover limit Hl64).
+  rewrite !cover_depth_log2_up by assumption.
+  set (depth := N.log2_up count). set (ld := N.log2_up limit).
+  assert (Hdl : depth <= ld) by (apply N.log2_up_le_mono; exact Hcl).
+  assert (Hld64 : ld <= 64) by (apply log2_up_le64; exact Hl64).
+  assert (Hcd : count <= 2 ^ depth) by apply le_pow2_log2_up.
+  assert (Hcld : count <= 2 ^ ld).
+  { eapply N.le_trans; [exact Hcl|apply le_pow2_log2_up]. }
+  destruct (leaves_loop_ok leaf count depth ld Hcld Hc64 (nat_of count) 0
+              (repeat zero_chunk (S (nat_of ld))))
+    as (tmp1 & Hloop & Hlen1 & HInv1).
+  { unfold nat_of. lia. }
+  { apply repeat_length. }
+  { apply Inv_0. }
+  rewrite Hloop. cbn [bind].
+  (* after the leaves (and the padding call, if any) tmp[depth] is the root at [depth] *)
+  assert (Hpad : exists tmp2,
+    (if negb (shl64 1 depth =? count)
+     then merge H zh count count depth tmp1 (zh 0) else OK tmp1) = OK tmp2 /\
+    length tmp2 = S (nat_of ld) /\
+    nth (nat_of depth) tmp2 zero_chunk = B leaf depth 0 count).
+  { assert (Hshl : (shl64 1 depth =? count) = (2 ^ depth =? count)).
+    { destruct (N.eq_dec depth 64) as [Hd|Hd].
+      - rewrite shl64_1_high by lia.
+        destruct (N.eqb_spec 0 count) as [<-|Hc0].
+        + exfalso. unfold depth in Hd. discriminate.
+        + symmetry. apply N.eqb_neq. rewrite Hd. lia.
+      - rewrite shl64_1 by lia. reflexivity. }
+    rewrite Hshl. destruct (N.eqb_spec (2 ^ depth) count) as [Heq|Hne]; cbn [negb].
+    - exists tmp1. split; [reflexivity|]. split; [exact Hlen1|].
+      assert (Hbit : N.testbit count depth = true).
+      { rewrite <- Heq. apply N.pow2_bits_true. }
+      rewrite (HInv1 depth Hbit). f_equal; [|exact Heq].
+      unfold st. rewrite <- Heq.
+      rewrite N.div_small by (apply pow2_lt_mono; lia). lia.
+    - unfold merge.
+      destruct (merge_pad leaf count depth ld tmp1 Hlen1) with (fuel := 66%nat) (j := 0) (h := zh 0)
+        as (tmp2 & Hm & Hl2 & Hn2); try assumption; try lia.
+      + rewrite N.mod_1_r. symmetry. apply B_0_0.
+      + exists tmp2. split; [exact Hm|]. split; [congruence|exact Hn2]. }
+  destruct Hpad as (tmp2 & Hp & Hlen2 & Hn2). rewrite Hp. cbn [bind].
+  destruct (climb_ok ld (rng leaf 0 count) (nat_of (ld - depth)) depth tmp2)
+    as (tmp3 & Hc & Hn3 & Hlen3).
+  { unfold nat_of. lia. }
+  { exact Hlen2. }
+  { rewrite rng_len. exact Hcd. }
+  { exact Hn2. }
+  rewrite Hc. cbn [bind].
+  rewrite tmp_get_ok by (rewrite Hlen3; lia).
+  rewrite Hn3. reflexivity.
+Qed.
+
+(* ------------------------------------------------------------------------------------ *)
+(* D. the flat helpers                                                                   *)
+
+Ltac Zify.zify_post_hook ::= Z.div_mod_to_equations.
+
+Lemma pad32_exact l : length l = 32%nat -> pad32 l = l.
+Proof.
+  intros Hl. unfold pad32, pad_to. rewrite firstn_app, Hl, Nat.sub_diag, <- Hl, firstn_all.
+  cbn [firstn]. apply app_nil_r.
+Qed.
+
+Lemma le_bytes_small a b x : x < 256 ^ N.of_nat a ->
+  le_bytes (a + b) x = le_bytes a x ++ repeat b0 b.
+Proof.
+  intros Hx. rewrite le_bytes_app. f_equal. rewrite N.div_small by exact Hx.
+  apply le_bytes_zero. apply N.mod_0_l, pow256_nz.
+Qed.
+
+Lemma pad32_le8 len : len < 2 ^ 64 -> pad32 (le_bytes 8 len) = pad32 (le_bytes 32 len).
+Proof.
+  intros Hlen. rewrite (pad32_exact (le_bytes 32 len)) by apply le_bytes_length.
+  change 32%nat with (8 + 24)%nat at 2. rewrite le_bytes_small by exact Hlen.
+  cbn [le_bytes]. reflexivity.
+Qed.
+
+Lemma mixin_correct v len : len < 2 ^ 64 -> mixin H v len = mix_in_length H v len.
+Proof. intros Hlen. unfold mixin, mix_in_length. rewrite pad32_le8 by exact Hlen. reflexivity. Qed.
+
+Lemma pad32_le1 sel : sel < 256 -> pad32 [byte_of_N sel] = pad32 (le_bytes 32 sel).
+Proof.
+  intros Hs. rewrite (pad32_exact (le_bytes 32 sel)) by apply le_bytes_length.
+  change 32%nat with (1 + 31)%nat at 2. rewrite le_bytes_small by exact Hs.
+  cbn [le_bytes]. reflexivity.
+Qed.
+
+Lemma union_correct_some sel r : sel < 256 -> union_htr H sel (Some r) = mix_in_selector H r sel.
+Proof. intros Hs. unfold union_htr, mix_in_selector. rewrite pad32_le1 by exact Hs. reflexivity. Qed.
+
+Lemma union_correct_none sel : sel < 256 ->
+  union_htr H sel None = mix_in_selector H zero_chunk sel.
+Proof. intros Hs. unfold union_htr, mix_in_selector. rewrite pad32_le1 by exact Hs. reflexivity. Qed.
+
+(* a chunk series read through its [nth] element function *)
+Definition nth_elem (rs : list chunk) : N -> chunk := fun i => nth (nat_of i) rs zero_chunk.
+
+Lemma leaves_nth rs : leaves (nth_elem rs) (lenN rs) = rs.
+Proof.
+  unfold leaves, lenN, nth_elem. rewrite Nat2N.id, map_map.
+  apply (nth_ext _ _ zero_chunk zero_chunk).
+  - rewrite map_length, seq_length. reflexivity.
+  - intros n Hn. rewrite map_length, seq_length in Hn.
+    rewrite (nth_indep _ zero_chunk (nth (nat_of (N.of_nat 0)) rs zero_chunk))
+      by (rewrite map_length, seq_length; exact Hn).
+    rewrite (map_nth (fun x => nth (nat_of (N.of_nat x)) rs zero_chunk)).
+    rewrite seq_nth by exact Hn. unfold nat_of. rewrite Nat2N.id. reflexivity.
+Qed.
+
+Lemma leaves_ext f g n : (forall i, i < n -> f i = g i) -> leaves f n = leaves g n.
+Proof.
+  intros Hfg. unfold leaves. rewrite !map_map. apply map_ext_in.
+  intros x Hx. apply in_seq in Hx. apply Hfg. lia.
+Qed.
+
+Lemma leaves_len f n : lenN (leaves f n) = n.
+Proof. unfold leaves, lenN. rewrite !map_length, seq_length. lia. Qed.
+
+Lemma fields_correct rs : lenN rs < 2 ^ 64 ->
+  fields_htr H zh rs = OK (merkleize_spec H rs (lenN rs)).
+Proof.
+  intros Hlen. destruct rs as [|a [|b [|c rs]]]; try reflexivity.
+  unfold fields_htr. fold (nth_elem (a :: b :: c :: rs)).
+  change (N.of_nat (length (a :: b :: c :: rs))) with (lenN (a :: b :: c :: rs)).
+  rewrite merkleize_correct by (try exact Hlen; lia).
+  rewrite leaves_nth. reflexivity.
+Qed.
+
+Lemma complex_vector_correct elem len : len < 2 ^ 64 ->
+  complex_vector_htr H zh elem len = OK (merkleize_spec H (leaves elem len) len).
+Proof. intros Hlen. unfold complex_vector_htr. apply merkleize_correct; [lia|exact Hlen]. Qed.
+
+Lemma complex_list_correct elem len limit : len <= limit -> limit < 2 ^ 64 ->
+  complex_list_htr H zh elem len limit =
+  OK (mix_in_length H (merkleize_spec H (leaves elem len) limit) len).
+Proof.
+  intros Hle Hlim. unfold complex_list_htr. rewrite merkleize_correct by assumption.
+  cbn [bind]. rewrite mixin_correct by lia. reflexivity.
+Qed.
+
+Lemma complex_vector_nth rs : lenN rs < 2 ^ 64 ->
+  complex_vector_htr H zh (fun i => nth (nat_of i) rs zero_chunk) (lenN rs) =
+  OK (merkleize_spec H rs (lenN rs)).
+Proof.
+  intros Hlen. fold (nth_elem rs). rewrite complex_vector_correct by exact Hlen.
+  rewrite leaves_nth. reflexivity.
+Qed.
+
+Lemma complex_list_nth rs limit : lenN rs <= limit -> limit < 2 ^ 64 ->
+  complex_list_htr H zh (fun i => nth (nat_of i) rs zero_chunk) (lenN rs) limit =
+  OK (mix_in_length H (merkleize_spec H rs limit) (lenN rs)).
+Proof.
+  intros Hle Hlim. fold (nth_elem rs). rewrite complex_list_correct by assumption.
+  rewrite leaves_nth. reflexivity.
+Qed.
+
+(* ---- byte strings ---- *)
+
+Lemma chunkify_fuel_spec : forall fuel bs, (length bs < fuel)%nat ->
+  chunkify_fuel fuel bs =
+  map (fun i => pad32 (firstn 32 (skipn (32 * i) bs))) (seq 0 ((length bs + 31) / 32)).
+Proof.
+  induction fuel as [|f IH]; intros bs Hf; [lia|].
+  destruct bs as [|b bs]; [reflexivity|].
+  cbn [chunkify_fuel]. set (l := b :: bs) in *.
+  assert (Hl : (0 < length l)%nat) by (subst l; cbn [length]; lia).
+  replace ((length l + 31) / 32)%nat with (S ((length (skipn 32 l) + 31) / 32))
+    by (rewrite skipn_length; lia).
+  cbn [seq map]. rewrite Nat.mul_0_r. cbn [skipn]. f_equal.
+  rewrite IH by (rewrite skipn_length; lia).
+  rewrite <- seq_shift, map_map. apply map_ext. intros i.
+  replace (32 * S i)%nat with (32 + 32 * i)%nat by lia. rewrite skipn_add. reflexivity.
+Qed.
+
+Lemma pack_leaves bs : pack bs = leaves (bytes_chunk bs) ((lenN bs + 31) / 32).
+Proof.
+  unfold pack, chunkify. rewrite chunkify_fuel_spec by lia.
+  unfold leaves, lenN. rewrite map_map.
+  replace (N.to_nat ((N.of_nat (length bs) + 31) / 32)) with ((length bs + 31) / 32)%nat by lia.
+  apply map_ext. intros i. unfold bytes_chunk, nat_of.
+  replace (N.to_nat (32 * N.of_nat i)) with (32 * i)%nat by lia. reflexivity.
+Qed.
+
+Lemma lenN_pack bs : lenN (pack bs) = (lenN bs + 31) / 32.
+Proof. rewrite pack_leaves. apply leaves_len. Qed.
+
+Lemma chunks_correct bs limit :
+  (lenN bs + 31) / 32 <= limit -> limit < 2 ^ 64 ->
+  chunks_htr H zh (bytes_chunk bs) ((lenN bs + 31) / 32) limit = OK (merkleize_spec H (pack bs) limit).
+Proof.
+  intros Hle Hlim. unfold chunks_htr. rewrite merkleize_correct by assumption.
+  rewrite <- pack_leaves. reflexivity.
+Qed.
+
+Lemma wrap64_small' n : n < 2 ^ 64 -> wrap64 n = n.
+Proof. intros Hn. unfold wrap64. rewrite BitlenProofs.two64_eq. apply N.mod_small, Hn. Qed.
+
+Lemma byte_vector_correct bs : lenN bs < 2 ^ 64 ->
+  byte_vector_htr H zh bs = OK (merkleize_spec H (pack bs) ((lenN bs + 31) / 32)).
+Proof.
+  intros Hlen. unfold byte_vector_htr. fold (lenN bs). apply chunks_correct; [lia|].
+  change (2 ^ 64) with 18446744073709551616 in *. lia.
+Qed.
+
+Lemma byte_list_correct bs limit : lenN bs <= limit -> limit < 2 ^ 63 ->
+  byte_list_htr H zh bs limit =
+  OK (mix_in_length H (merkleize_spec H (pack bs) ((limit + 31) / 32)) (lenN bs)).
+Proof.
+  intros Hle Hlim. unfold byte_list_htr. fold (lenN bs).
+  change (2 ^ 63) with 9223372036854775808 in *.
+  rewrite wrap64_small' by (change (2 ^ 64) with 18446744073709551616; lia).
+  rewrite chunks_correct;
+    [|lia|change (2 ^ 64) with 18446744073709551616; lia].
+  cbn [bind]. rewrite mixin_correct by (change (2 ^ 64) with 18446744073709551616; lia).
+  reflexivity.
+Qed.
+
+Lemma shiftr5 a : N.shiftr a 5 = a / 32.
+Proof. rewrite N.shiftr_div_pow2. reflexivity. Qed.
+Lemma shiftr2 a : N.shiftr a 2 = a / 4.
+Proof. rewrite N.shiftr_div_pow2. reflexivity. Qed.
+Lemma shiftr8 a : N.shiftr a 8 = a / 256.
+Proof. rewrite N.shiftr_div_pow2. reflexivity. Qed.
+
+Lemma uint8_vector_correct bs : lenN bs < 2 ^ 63 ->
+  uint8_vector_htr H zh bs = OK (merkleize_spec H (pack bs) ((lenN bs + 31) / 32)).
+Proof.
+  intros Hlen. unfold uint8_vector_htr. fold (lenN bs).
+  change (2 ^ 63) with 9223372036854775808 in *.
+  rewrite wrap64_small' by (change (2 ^ 64) with 18446744073709551616; lia).
+  rewrite shiftr5. apply chunks_correct; [lia|].
+  change (2 ^ 64) with 18446744073709551616; lia.
+Qed.
+
+Lemma uint8_list_correct bs limit : lenN bs <= limit -> limit < 2 ^ 63 ->
+  uint8_list_htr H zh bs limit =
+  OK (mix_in_length H (merkleize_spec H (pack bs) ((limit + 31) / 32)) (lenN bs)).
+Proof.
+  intros Hle Hlim. unfold uint8_list_htr. fold (lenN bs).
+  change (2 ^ 63) with 9223372036854775808 in *.
+  rewrite !wrap64_small' by (change (2 ^ 64) with 18446744073709551616; lia).
+  rewrite !shiftr5.
+  rewrite chunks_correct;
+    [|lia|change (2 ^ 64) with 18446744073709551616; lia].
+  cbn [bind]. rewrite mixin_correct by (change (2 ^ 64) with 18446744073709551616; lia).
+  reflexivity.
+Qed.
+
+Lemma lenN_u64s vals : lenN (u64s_bytes vals) = 8 * lenN vals.
+Proof.
+  unfold u64s_bytes, lenN. induction vals as [|v vals IH]; [reflexivity|].
+  cbn [flat_map]. rewrite app_length, le_bytes_length. cbn [length]. lia.
+Qed.
+
+Lemma uint64_vector_correct vals : lenN vals < 2 ^ 60 ->
+  uint64_vector_htr H zh vals =
+  OK (merkleize_spec H (pack (flat_map (le_bytes 8) vals)) ((lenN vals * 8 + 31) / 32)).
+Proof.
+  intros Hlen. unfold uint64_vector_htr. fold (lenN vals). fold (u64s_bytes vals).
+  change (2 ^ 60) with 1152921504606846976 in *.
+  rewrite wrap64_small' by (change (2 ^ 64) with 18446744073709551616; lia).
+  rewrite shiftr2.
+  replace ((lenN vals + 3) / 4) with ((lenN (u64s_bytes vals) + 31) / 32)
+    by (rewrite lenN_u64s; lia).
+  rewrite chunks_correct; [|lia|rewrite lenN_u64s; change (2 ^ 64) with 18446744073709551616; lia].
+  do 2 f_equal. rewrite lenN_u64s. lia.
+Qed.
+
+Lemma uint64_list_correct vals limit : lenN vals <= limit -> limit < 2 ^ 60 ->
+  uint64_list_htr H zh vals limit =
+  OK (mix_in_length H (merkleize_spec H (pack (flat_map (le_bytes 8) vals)) ((limit * 8 + 31) / 32))
+                    (lenN vals)).
+Proof.
+  intros Hle Hlim. unfold uint64_list_htr. fold (lenN vals). fold (u64s_bytes vals).
+  change (2 ^ 60) with 1152921504606846976 in *.
+  rewrite !wrap64_small' by (change (2 ^ 64) with 18446744073709551616; lia).
+  rewrite !shiftr2.
+  replace ((lenN vals + 3) / 4) with ((lenN (u64s_bytes vals) + 31) / 32)
+    by (rewrite lenN_u64s; lia).
+  rewrite chunks_correct;
+    [|rewrite lenN_u64s; lia|change (2 ^ 64) with 18446744073709551616; lia].
+  cbn [bind]. rewrite mixin_correct by (change (2 ^ 64) with 18446744073709551616; lia).
+  do 3 f_equal. lia.
+Qed.
+
 End WithHash.
